@@ -19,7 +19,7 @@ int main(int argc, char **argv) {
     bool thorough = R.args.tier == "thorough";
     unsigned variants = 5;
     unsigned dirExh = thorough ? 4 : 3, undExh = thorough ? 5 : 4;
-    uint64_t randomCount = (uint64_t)R.args.geti("random", thorough ? 20000 : 600);
+    uint64_t randomCount = (uint64_t)R.args.geti("random", thorough ? 40000 : 2500);
     unsigned randMin = 5, randMax = 12;
     if (prop == "C10") {
         variants = 2;
@@ -27,7 +27,7 @@ int main(int argc, char **argv) {
         undExh = thorough ? 5 : 4;
         randMin = 4;
         randMax = thorough ? 7 : 6;
-        randomCount = (uint64_t)R.args.geti("random", thorough ? 6000 : 300);
+        randomCount = (uint64_t)R.args.geti("random", thorough ? 12000 : 1200);
     }
     SpecSpace sd(true, dirExh, randomCount, randMin, randMax), su(false, undExh, randomCount, randMin, randMax);
     uint64_t total = (sd.count() + su.count()) * variants;
